@@ -429,8 +429,11 @@ static Case genApprox(vh::Rng &g, vh::Out &out) {
     static const std::vector<float> cuts = {0.5f, 1.0f, 2.0f, 0.7f, 4.0f, 1.7f};
     c.cutoff = g.pick(cuts);
     for (int i = 0; i < c.nbCells; ++i) {
-      c.target.push_back(c.pl[i] + (float)g.range(-12, 12) / 2.0f);
-      c.strength.push_back(g.chance(1, 6) ? 0.0f : anyWeight(g));
+      // one cell in five sits exactly ON its target (a cell the rough legalizer did not move): the penalty spring is
+      // then at its stiffest (strength / cutoff), not absent
+      bool tie = g.chance(1, 5);
+      c.target.push_back(tie ? c.pl[i] : c.pl[i] + (float)g.range(-12, 12) / 2.0f);
+      c.strength.push_back(tie ? (out.count("approx_penalty_target_equals_position"), std::max(anyWeight(g), 0.5f)) : (g.chance(1, 6) ? 0.0f : anyWeight(g)));
     }
   }
   return c;
@@ -481,8 +484,9 @@ static Case genGeneral(vh::Rng &g, vh::Out &out, int forceMode) {
     c.hasPen = true;
     c.cutoff = g.chance(1, 2) ? pow2(g.range(-1, 5)) : (float)g.range(1, 400) / 10.0f;
     for (int i = 0; i < c.nbCells; ++i) {
-      c.target.push_back(c.pl[i] + (float)g.range(-40, 40));
-      c.strength.push_back(g.chance(1, 6) ? 0.0f : anyWeight(g));
+      bool tie = g.chance(1, 5);  // exactly on its target, see the approximate stream
+      c.target.push_back(tie ? c.pl[i] : c.pl[i] + (float)g.range(-40, 40));
+      c.strength.push_back(tie ? (out.count("general_penalty_target_equals_position"), std::max(anyWeight(g), 0.5f)) : (g.chance(1, 6) ? 0.0f : anyWeight(g)));
     }
   }
   return c;
